@@ -40,7 +40,7 @@ func init() {
 			"'tree unmodified' is decided by a structural reflection snapshot taken by the monitor before the call",
 			"the order of ResolvePackage calls follows map iteration, so fail-at-k hits a different package from run to run; every k is covered, not every (k, package) pair",
 		},
-		Required: map[string]int{"fault_kinds": 6},
+		Required: map[string]int{"fault_kinds": 7},
 	})
 }
 
@@ -258,6 +258,54 @@ func c17Decorate(c *fw.Ctx, id, name string, src []byte) {
 				}
 				c.Nontrivial(cid2)
 			})
+		}
+	}
+	// (f) the parsing entry point on a source that also has a (recoverable) syntax error: the
+	// partial file is decorated, so the resolver is consulted and its failure must still surface
+	{
+		broken := append(append([]byte{}, src...), "\nvar zzBroken = )\n\nfunc zzAfter() {}\n"...)
+		probe := &failingIdentResolver{inner: goast.New()}
+		var refTree *dst.File
+		var refErr error
+		fw.Try(func() {
+			refTree, refErr = decorator.NewDecoratorWithImports(token.NewFileSet(), "example.com/self", probe).Parse(broken)
+		})
+		if refTree != nil && refErr != nil && probe.calls > 0 {
+			refOut2, _ := printWithImports(refTree)
+			ks := []int{1, (probe.calls + 1) / 2, probe.calls}
+			for ki, k := range ks {
+				if ki > 0 && k == ks[ki-1] {
+					continue
+				}
+				cidf := fmt.Sprintf("%s/parse-with-syntax-error-fail@%d", id, k)
+				c.Case(cidf, func() {
+					c.Observe("fault_kinds", "ident-resolver-in-parse-with-syntax-error")
+					fr := &failingIdentResolver{inner: goast.New(), failAt: k}
+					var out *dst.File
+					var err error
+					if sig, detail := fw.Try(func() {
+						out, err = decorator.NewDecoratorWithImports(token.NewFileSet(), "example.com/self", fr).Parse(broken)
+					}); sig != "" {
+						c.Violate("panic-on-fault", sig, cidf+"\n"+detail, string(broken))
+						return
+					}
+					if fr.calls < k {
+						c.Count("fault_point_not_reached", 1)
+						return
+					}
+					c17Verdict(c, cidf, "parse", err, out != nil, 0, string(broken))
+					// retry with a working resolver: the same tree and the same syntax error as without a fault
+					out2, err2 := decorator.NewDecoratorWithImports(token.NewFileSet(), "example.com/self", goast.New()).Parse(broken)
+					if out2 == nil || err2 == nil || err2.Error() != refErr.Error() {
+						c.Violate("retry-differs", "retry-differs:parse", fmt.Sprintf("%s: retry gave tree=%v err=%v, the failure-free run a tree and %v", cidf, out2 != nil, err2, refErr), string(broken))
+						return
+					}
+					if got, _ := printWithImports(out2); got != refOut2 {
+						c.Violate("retry-differs", "retry-differs:parse", cidf+": retry output differs from the failure-free output", string(broken))
+					}
+					c.Nontrivial(cidf)
+				})
+			}
 		}
 	}
 	// (c) failure inside goast's package-name resolver
